@@ -222,6 +222,15 @@ def r3(ctx):
         if var != "Ok":
             continue
         why = "?"
+        # what the loop has read on this path: the sum of the read_buf results
+        total = 0
+        last_read = None
+        for e in p.events:
+            if e.kind == "await":
+                t_ = tform(e.args[0])
+                if isinstance(t_, tuple) and t_[0] == "call" and t_[1].endswith("read_buf"):
+                    last_read = ("field", ("as", e.result, "Ok"), "0")
+                    total = lin_add(total, last_read, 1)
         for c, truth, s, _at in reversed(p.state.pc):
             a = atoms(c)
             if isinstance(c, tuple) and c[0] == "cmp" and c[1] in ("Eq", "Ne"):
@@ -230,9 +239,15 @@ def r3(ctx):
                     break
                 if P("bytes") in a and any(isinstance(x, tuple) and x[0] == "await" for x in a) and ((c[1] == "Eq") == truth):
                     why = "counter==bytes"
+                    # the counter compared with the requested count is exactly the number of bytes read so far
+                    side = c[2] if P("bytes") in atoms(c[3]) else c[3]
+                    exact = total is not None and lin_add(simplify_trunc(side), total, -1) == 0
+                    rep.check(exact, "skip_bytes:counter-is-bytes-read", "the loop ends when (bytes read so far) == requested", "skip_bytes ends when %s equals the requested count, but it has read %s: body bytes are left in the stream (or bytes of the next request are taken) and the connection is misframed" % (short(side, 60), short(total, 60)), sb.loc())
                     break
                 if any(isinstance(x, tuple) and x[0] == "await" for x in a) and P("bytes") not in a and ((c[1] == "Eq") == truth):
                     why = "eof"
+                    other = c[3] if any(isinstance(x, tuple) and x[0] == "await" for x in atoms(c[2])) or (isinstance(c[2], tuple) and c[2] and c[2][0] == "await") else c[2]
+                    rep.check(other == 0, "skip_bytes:eof-test", "end of stream = a read of 0 bytes", "skip_bytes treats a read of %s bytes as the end of the stream: a short read ends the discard loop in the middle of the body" % short(other, 20), sb.loc())
                     break
                 if ("cmp", "Eq") == c[:2] and truth and any(isinstance(x, tuple) and x[0] == "newbuf" for x in a):
                     why = "eof"
@@ -278,19 +293,27 @@ def skip_capacity_discipline(I, paths):
     return out
 
 
-def simplify_trunc(v):
-    """drop ('trunc', ty, x) wrappers (the rule seeds ranges that make the casts lossless)"""
+def simplify_trunc(v, min_bits=32, small=None):
+    """drop ('trunc', ty, x) wrappers that are known to be lossless: the target type has at least `min_bits` bits (the
+    quantities compared are byte counts bounded by u32 header fields / the u32 item limit), or `small(x)` says the operand
+    is known to be small (e.g. a validated key length). A narrower truncation stays in the term — and then differs from
+    what the rule expects: truncating a length is how a length field goes wrong for large values."""
+    from absint import INT_BITS
+
     if isinstance(v, tuple) and v:
         if v[0] == "trunc":
-            return simplify_trunc(v[2])
+            inner = simplify_trunc(v[2], min_bits, small)
+            if INT_BITS.get(v[1], 0) >= min_bits or (small is not None and small(inner)) or isinstance(inner, int):
+                return inner
+            return ("trunc", v[1], inner)
         if v[0] == "lin":
             acc = v[2]
             for a, k in v[1]:
-                s = simplify_trunc(a)
+                s = simplify_trunc(a, min_bits, small)
                 acc = lin_add(acc, lin_scale_(s, k), 1)
             return acc
         if v[0] == "min":
-            return ("min", simplify_trunc(v[1]), simplify_trunc(v[2]))
+            return ("min", simplify_trunc(v[1], min_bits, small), simplify_trunc(v[2], min_bits, small))
     return v
 
 
@@ -299,6 +322,15 @@ def lin_scale_(v, k):
 
     r = lin_scale(v, k)
     return r if r is not None else v
+
+
+def is_cli_item_limit(v):
+    """the CLI's item size limit in bytes, unchanged: Byte::as_u64(config.item_size_limit), at most cast to a type of 32 bits
+    or more (the pinned code's `as u32`; the CLI caps the option at 1024m) — a narrower cast or arithmetic on it is not"""
+    t = simplify_trunc(tform(v), 32)
+    while isinstance(t, tuple) and t and t[0] in ("ref", "deref"):
+        t = t[1]
+    return isinstance(t, tuple) and len(t) >= 4 and t[0] == "call" and t[1].split("::")[-1] in ("as_u64", "as_u128", "get_bytes") and len(t[3]) == 1 and t[3][0] in (F(P("config"), "item_size_limit"), ("deref", F(P("config"), "item_size_limit")), ("ref", F(P("config"), "item_size_limit")))
 
 
 def r4(ctx):
@@ -327,7 +359,7 @@ def r4(ctx):
 
     for fn in builderfacts.BUILDERS:
         bf = builderfacts.builder_facts(ctx, fn)
-        ok = bool(bf["news"]) and all(F(P("config"), "item_size_limit") in atoms(field_of(cfg, "item_memory_limit")) for cfg, _st, _e in bf["news"])
+        ok = bool(bf["news"]) and all(is_cli_item_limit(field_of(cfg, "item_memory_limit")) for cfg, _st, _e in bf["news"])
         rep.check(ok, "runtime_builder::%s" % fn, "server config item limit <- args.item_size_limit", "%s does not pass the CLI item size limit as the server's item limit" % fn, bf["body"].loc())
     return rep
 
